@@ -4,6 +4,8 @@ package props
 import (
 	_ "verifharness/props/c02"
 	_ "verifharness/props/c03"
+	_ "verifharness/props/c09"
+	_ "verifharness/props/c10"
 	_ "verifharness/props/c11"
 	_ "verifharness/props/c12"
 	_ "verifharness/props/c15"
